@@ -401,6 +401,33 @@ class Rx(object):
             out.append((z3.And(*cons), groups, pre, suf, v))
         return out
 
+    def _concrete_ok(self, v, mo, lit, mode):
+        """Does the real match (spans of its groups) fit variant v segment by segment?"""
+        pos = mo.start()
+        segs = v.segs
+        for i, sg in enumerate(segs):
+            if sg.group is not None:
+                if mo.group(sg.group) is None or mo.start(sg.group) != pos:
+                    return False
+                text = mo.group(sg.group)
+                pos = mo.end(sg.group)
+            else:
+                nxt = [x.group for x in segs[i + 1:] if x.group is not None]
+                end = mo.start(nxt[0]) if nxt and mo.group(nxt[0]) is not None else mo.end()
+                if end < pos:
+                    return False
+                text = lit[pos:end]
+                pos = end
+            if not member(py2z(text), sg.re):
+                return False
+        if pos != mo.end():
+            return False
+        suf = self._suf(mode, v.end)
+        rest = py2z(lit[mo.end():])
+        if suf is None:
+            return rest == ""
+        return member(rest, suf)
+
     # -- validation against the real engine -----------------------------------------------
     def validate(self, corpus, mode="search", check_groups=True):
         """Compare with the real `re` on concrete subjects; raises HarnessError on any disagreement."""
@@ -419,28 +446,8 @@ class Rx(object):
                     self.src, mode, lit, bool(mo), model))
             n += 1
             if mo and check_groups:
-                s = z3.String("val_s")
-                alts = self.match_sym(s, mode, "val")
-                sol = z3.Solver()
-                sol.add(s == z3.StringVal(zs))
-                sol.add(z3.Or(*[a[0] for a in alts]))
-                # some decomposition must reproduce the real groups; none may differ
-                same = []
-                for (c, groups, _p, _s, _v) in alts:
-                    eqs = [c]
-                    for g, x in groups.items():
-                        real = mo.group(g)
-                        eqs.append(x == z3.StringVal(py2z(real if real is not None else lit[:0])))
-                    same.append(z3.And(*eqs))
-                sol.push()
-                sol.add(z3.Or(*same))
-                r1 = check(sol)
-                sol.pop()
-                sol.add(z3.Not(z3.Or(*same)))
-                r2 = check(sol)
-                if r1 != z3.sat or r2 != z3.unsat:
-                    raise hlib.HarnessError("_rx: group decomposition of %r on %r disagrees with the real match (%s/%s)" % (
-                        self.src, lit, r1, r2))
+                if not any(self._concrete_ok(v, mo, lit, mode) for v in self.variants):
+                    raise hlib.HarnessError("_rx: group decomposition of %r on %r disagrees with the real match" % (self.src, lit))
         return n
 
 
@@ -520,3 +527,124 @@ def cvc5_check(assertions, timeout_ms=20000):
         return res or "unknown"
     except Exception as e:  # cvc5 front-end problem is not a property result
         return "unavailable(%s)" % (str(e)[:120],)
+
+
+# ---- character maps (str.upper / str.lower applied to the subject before / after matching) ------------
+
+class CharMap(object):
+    """Per-character view of a real str method ('upper' or 'lower'), computed over all code points by calling the
+    real method.  pre(ranges) = code points whose image is a single character inside `ranges`.
+    Characters with a multi-character image are listed in `multi`; `check_multi(alphabet)` makes sure none of them
+    can take part in a match (some character of their image is outside the pattern's alphabet)."""
+    _cache = {}
+
+    def __new__(cls, method):
+        if method in cls._cache:
+            return cls._cache[method]
+        self = object.__new__(cls)
+        cls._cache[method] = self
+        self.method = method
+        f = getattr(str, method)
+        self.moved = {}     # code point -> single-character image different from itself
+        self.multi = {}     # code point -> multi-character image
+        high = "".join(map(chr, range(Z3_MAXCHAR + 1, 0x110000)))
+        if f(high) != high:
+            raise hlib.HarnessError("_rx: str.%s moves a code point above U+2FFFF" % method)
+        for c in range(Z3_MAXCHAR + 1):
+            ch = chr(c)
+            im = f(ch)
+            if im != ch:
+                if len(im) == 1:
+                    self.moved[c] = ord(im)
+                else:
+                    self.multi[c] = im
+        if any(c > Z3_MAXCHAR for c in self.moved) or any(c > Z3_MAXCHAR for c in self.multi):
+            raise hlib.HarnessError("_rx: str.%s moves a code point above U+2FFFF" % method)
+        # context sensitivity: Python's lower() treats GREEK CAPITAL SIGMA by context; callers must keep it out
+        self.context_sensitive = [0x3A3] if method == "lower" else []
+        return self
+
+    def image(self, c):
+        if c in self.multi:
+            return None
+        return self.moved.get(c, c)
+
+    def pre(self, ranges):
+        def inside(x):
+            return any(lo <= x <= hi for (lo, hi) in ranges)
+        # identity part: the ranges minus everything that moves away or expands
+        pts = set()
+        out = []
+        for (lo, hi) in ranges:
+            cur = lo
+            movers = sorted(c for c in list(self.moved) + list(self.multi) if lo <= c <= hi)
+            for mv in movers:
+                if cur <= mv - 1:
+                    out.append((cur, mv - 1))
+                cur = mv + 1
+            if cur <= hi:
+                out.append((cur, hi))
+        for c, im in self.moved.items():
+            if inside(im):
+                pts.add(c)
+        for c in sorted(pts):
+            out.append((c, c))
+        out.sort()
+        merged = []
+        for (lo, hi) in out:
+            if merged and merged[-1][1] >= lo - 1:
+                merged[-1] = (merged[-1][0], max(hi, merged[-1][1]))
+            else:
+                merged.append((lo, hi))
+        return merged
+
+    def check_multi(self, alphabet):
+        """alphabet: ranges of every character any atom of the pattern can match"""
+        def inside(x):
+            return any(lo <= x <= hi for (lo, hi) in alphabet)
+        bad = [c for c, im in self.multi.items() if all(inside(ord(x)) for x in im)]
+        if bad:
+            raise hlib.HarnessError("_rx: str.%s expands %r into characters that all belong to the pattern alphabet" % (
+                self.method, [chr(c) for c in bad[:5]]))
+
+
+class MappedRx(Rx):
+    """Rx whose subject is passed through str.upper()/str.lower() before matching: every atom's character set is
+    replaced by its preimage under the real method."""
+
+    def __init__(self, pattern, flags=0, method="upper"):
+        self.cmap = CharMap(method)
+        self._alphabet = []
+        Rx.__init__(self, pattern, flags)
+        if self.is_bytes:
+            raise hlib.HarnessError("_rx: MappedRx is for str patterns")
+        self.cmap.check_multi(self._alphabet)
+        if any(any(lo <= c <= hi for (lo, hi) in self._alphabet) for c in self.cmap.context_sensitive):
+            raise hlib.HarnessError("_rx: pattern alphabet contains a context-sensitive character for str.%s" % method)
+
+    def _atom(self, op, av):
+        ranges = atom_chars(op, av, self.flags, self.is_bytes)
+        self._alphabet.extend(ranges)
+        return chars_re(self.cmap.pre(ranges))
+
+    def _lit_text(self, items):
+        return None
+
+    def _suf(self, mode, end):
+        # "$" looks at the MAPPED subject: a final "\n" is mapped to itself by upper()/lower()
+        return Rx._suf(self, mode, end)
+
+    def validate(self, corpus, mode="search", check_groups=False):
+        L = self.lang(mode)
+        n = 0
+        f = getattr(str, self.cmap.method)
+        for lit in corpus:
+            if not isinstance(lit, str) or any(ord(ch) > Z3_MAXCHAR for ch in lit):
+                continue
+            real = bool(getattr(self.pat, mode)(f(lit)))
+            model = member(lit, L)
+            if real != model:
+                raise hlib.HarnessError("_rx: mapped translation of %r disagrees with re.%s on %r.%s(): real=%r model=%r" % (
+                    self.src, mode, lit, self.cmap.method, real, model))
+            n += 1
+        return n
